@@ -925,7 +925,7 @@ def h_opt_unwrap(I, st, callee, target, args, ctx):
 def h_res_unwrap(I, st, callee, target, args, ctx):
     v = args[0]
     if isinstance(v, VAdt) and v.adt == RESULT:
-        panic_obligation(I, st, ctx, "Result::unwrap", v.variant == 0, "value is Err")
+        panic_obligation(I, st, ctx, "Result::unwrap", v.variant == 0, "value is Err(%r)" % (v.fields[0],))
         return [(st, v.fields[0])] if v.variant == 0 else []
     panic_obligation(I, st, ctx, "Result::unwrap", False, "cannot prove Ok: %r" % (v,))
     return [(st, VOpaque("unwrap"))]
@@ -1706,3 +1706,135 @@ def h_ok_ctor(I, st, callee, target, args, ctx):
 @ext("core::result::Result::Err::{constructor#0}")
 def h_err_ctor(I, st, callee, target, args, ctx):
     return [(st, mk_err(args[0]))]
+
+
+def _saturating(op):
+    def h(I, st, callee, target, args, ctx):
+        a, b = args
+        la, lb = lin_of(st, a), lin_of(st, b)
+        tr = ty_range(a.w, a.s)
+        if op == "sub":
+            r = la - lb
+            under = decide_le0(st, r - tr.min() + 1, "saturating_sub") if False else None
+            ok = decide_le0(st, -r + tr.min(), "saturating_sub")      # r >= min
+            return [(st, VInt(a.w, a.s, lin=r if ok else Lin.const(tr.min())))]
+        r = la + lb
+        ok = decide_le0(st, r - tr.max(), "saturating_add")
+        return [(st, VInt(a.w, a.s, lin=r if ok else Lin.const(tr.max())))]
+    return h
+
+
+for _t in ("u8", "u16", "u32", "u64", "usize", "i8", "i16", "i32", "i64", "isize"):
+    EXT["core:%s::saturating_sub" % _t] = _saturating("sub")
+    EXT["core:%s::saturating_add" % _t] = _saturating("add")
+    CONTRACT["core:%s::saturating_sub" % _t] = "total"
+    CONTRACT["core:%s::saturating_add" % _t] = "total"
+
+
+# ================================================================================================
+# std::io / iterator adaptors used by the command-line tool (C20)
+
+@ext("std::io::stdio::stdin", "std:Stdin::lock", contract="opaque-total")
+def h_stdin(I, st, callee, target, args, ctx):
+    return [(st, VOpaque("env:stdin"))]
+
+
+@ext("std::io::BufRead::split")
+def h_split(I, st, callee, target, args, ctx):
+    d = args[1]
+    dv = lin_of(st, d).c if isinstance(d, VInt) and lin_of(st, d).is_const() else None
+    st.event("line_source", "split", dv, valkey(args[0]))
+    return [(st, VParser("it_split", (args[0], d), {"delim": dv}))]
+
+
+@ext("std::io::BufRead::lines")
+def h_lines(I, st, callee, target, args, ctx):
+    st.event("line_source", "lines", None, valkey(args[0]))
+    return [(st, VParser("it_lines", (args[0],), {}))]
+
+
+@ext("core::iter::traits::iterator::Iterator::map")
+def h_iter_map(I, st, callee, target, args, ctx):
+    if isinstance(args[0], VParser) and args[0].kind.startswith("it_"):
+        return [(st, VParser("it_map", (args[0], args[1]), {}))]
+    raise Unanalysable("Iterator::map over %r" % (args[0],))
+
+
+for _k, _kind in (("core::iter::traits::iterator::Iterator::take", "it_take"), ("core::iter::traits::iterator::Iterator::take_while", "it_take_while"),
+                  ("core::iter::traits::iterator::Iterator::skip", "it_skip"), ("core::iter::traits::iterator::Iterator::filter", "it_filter"),
+                  ("core::iter::traits::iterator::Iterator::step_by", "it_step_by"), ("core::iter::traits::iterator::Iterator::map_while", "it_map_while")):
+    def _h(I, st, callee, target, args, ctx, _kind=_kind):
+        if isinstance(args[0], VParser) and args[0].kind.startswith("it_"):
+            st.event("iterator_adaptor", _kind)
+            return [(st, VParser(_kind, tuple(args), {}))]
+        raise Unanalysable("%s over %r" % (_kind, args[0]))
+    EXT[_k] = _h
+    CONTRACT[_k] = "total"
+
+
+def iter_items(I, st, it, ctx):
+    """abstract items of an io iterator: [(st, item value)] for one generic element"""
+    if it.kind in ("it_split", "it_lines"):
+        a, b = st.copy(), st.copy()
+        n = len([e for e in st.events if e[0] == "item"])
+        a.event("item", "ok", n)
+        b.event("item", "io_error", n)
+        line = VSeq(("sym", "line#%d" % n), None) if it.kind == "it_split" else VStr(("sym", "line#%d" % n), True)
+        return [(a, mk_ok(line)), (b, mk_err(VOpaque("env:io_error")))]
+    if it.kind == "it_map":
+        out = []
+        for s2, item in iter_items(I, st, it.args[0], ctx):
+            out += I.apply_callable(s2, it.args[1], [item], ctx)
+        return out
+    raise Unanalysable("items of iterator adaptor %s (it may drop or stop before some lines)" % it.kind)
+
+
+@ext("core::iter::traits::iterator::Iterator::for_each")
+def h_for_each(I, st, callee, target, args, ctx):
+    it, g = args
+    if not (isinstance(it, VParser) and it.kind.startswith("it_")):
+        raise Unanalysable("for_each over %r" % (it,))
+    # the body applied to one generic item; its effects on the caller's state are those of one
+    # iteration.  for_each visits every item in order and returns when the source is exhausted.
+    outs = []
+    st.event("drain", "for_each")
+    nbody = 0
+    for s2, item in iter_items(I, st, it, ctx):
+        for s3, r in I.apply_callable(s2, g, [item], ctx):
+            nbody += 1
+            s3.event("body_done")
+            outs.append(s3)
+    # continue after the loop from each body outcome (all leave the caller's locals alone except
+    # through the captured &mut, which is opaque library state)
+    return [(s, UNIT) for s in outs] + [(st, UNIT)]
+
+
+@ext("core:Result<T, E>::unwrap_or_else")
+def h_unwrap_or_else(I, st, callee, target, args, ctx):
+    v, f = args
+    if isinstance(v, VAdt) and v.adt == RESULT:
+        if v.variant == 0:
+            return [(st, v.fields[0])]
+        return I.apply_callable(st, f, [v.fields[0]], ctx)
+    raise Unanalysable("unwrap_or_else on %r" % (v,))
+
+
+@ext("core:Result<T, E>::unwrap_or_default", "core:Result<T, E>::unwrap_or")
+def h_unwrap_or(I, st, callee, target, args, ctx):
+    v = args[0]
+    if isinstance(v, VAdt) and v.adt == RESULT:
+        if v.variant == 0:
+            return [(st, v.fields[0])]
+        return [(st, args[1] if len(args) > 1 else VOpaque("default"))]
+    raise Unanalysable("unwrap_or on %r" % (v,))
+
+
+@ext("alloc:String::from_utf8_lossy", contract="total")
+def h_lossy(I, st, callee, target, args, ctx):
+    return [(st, VOpaque("lossy_string"))]
+
+
+@ext("std::io::stdio::_print", "std::io::stdio::_eprint", contract="env")
+def h_print(I, st, callee, target, args, ctx):
+    st.event("output", "stdout" if target["def"].endswith("_print") else "stderr", tuple(ctx["term"].get("macros", [])[-1:]))
+    return [(st, UNIT)]
